@@ -978,8 +978,12 @@ public:
   void CopyNamesFromValueNodes() override {
     const auto& vn = GetValueNode().GetStrVec();
     assert(vn.size()==cons_.size());
-    for (auto i=vn.size(); i--; )
-      cons_[i].con_.SetName(vn[i].MakeCurrentName());
+    for (size_t i=0; i<vn.size(); ++i) {
+      std::string nm = vn[i].MakeCurrentName();
+      if (!cons_[i].IsBridged())      // goes to the solver: unique name
+        nm = GetConverter().MakeUniqueConName(std::move(nm));
+      cons_[i].con_.SetName(std::move(nm));
+    }
   }
 
   /// Copy names to ValueNodes
